@@ -23,6 +23,7 @@ ASSUMPTIONS = [
     "Daemon.annotations() is a constant of the daemon (it is overridable user code)",
     "late scheduling of a oneway thread is forced by wrapping _OnewayCallThread.run in the harness process (the thread waits on an event before the original run())",
     "a request whose peer reset the connection while it was queued is fed to the model with the address field None iff getpeername() fails on that connection when handleRequest is entered",
+    "in-place stores a method makes into its own request's annotations are subtracted from what later reads of the same request see before comparing with the request message's annotations",
     "a nested Proxy call made by a method from the serving thread shares the thread's context with the server side; not modelled",
     "the correlation id the handshake and PING code stores in the context is not modelled (every method call is preceded by the set-up that overwrites it)",
 ]
@@ -74,6 +75,7 @@ class World:
         self.reqs = []          # [connection object, thread, could the peer address be determined?] per handleRequest call
         self.gates = {}
         self.entered = {}
+        self.gate_thread = {}   # gate token -> thread that waits / waited there
         self.threads = []       # strong references: index = model thread id
 
     def tid(self, th):
@@ -112,7 +114,11 @@ def make_target(world):
                         else:
                             for i in st[2]:
                                 cc.response_annotations[key(i)] = str(i).encode()
+                    elif st[0] == "tagreq":
+                        # in-place store into the request annotations the method was handed
+                        cc.annotations[key(st[1])] = b"tag"
                     elif st[0] == "gate":
+                        world.gate_thread[st[1]] = threading.current_thread()
                         world.entered[st[1]].set()
                         world.gates[st[1]].wait(60)
                 if do_raise:
@@ -312,6 +318,7 @@ class ServerRun:
         self.problems = []
         self.conn_thread = {}   # conn index -> model thread id
         self.conn_obj = {}      # conn index -> server-side SocketConnection
+        self.req_tags = {}      # request (op index) -> annotation ids its own methods stored in place into the request annotations
 
     # -- helpers
     def thread_of_request(self, c, n_before=None):
@@ -334,7 +341,7 @@ class ServerRun:
                 self.outputs.append(["missing"])
                 self.problems.append("op %d: no reply (%r)" % (op_index, m))
 
-    def canon_snapshot(self, raw, tok):
+    def canon_snapshot(self, raw, tok, own_tags=()):
         w = self.world
         t = w.tid(raw["thread"])
         client = 9000
@@ -343,7 +350,8 @@ class ServerRun:
                 client = ci
         addr = raw["client_sock_addr"]
         addr = self.ports.get(addr[1], 9001) if isinstance(addr, tuple) and len(addr) >= 2 else 9001
-        anns = raw["annotations"]
+        # what the method itself stored in place into its request's annotations before this read is its own doing
+        anns = {k: v for k, v in raw["annotations"].items() if unkey(k) not in own_tags}
         if not anns:
             a = 0
         elif list(anns) == ["QREQ"] and anns["QREQ"].isdigit():
@@ -391,13 +399,15 @@ class ServerRun:
                     self.outputs.append(["missing"])
                     self.problems.append("snapshot %d was never taken" % st[1])
                 else:
-                    t_obs, fields = self.canon_snapshot(raw, st[1])
+                    t_obs, fields = self.canon_snapshot(raw, st[1], tuple(self.req_tags.setdefault(op_index, [])))
                     out = ["ctx", t_obs, st[1], fields]
                     self.outputs.append(out)
                     self.facts.append({"what": "ctx", "op": op_index, "tok": st[1], "expected": rq, "out": out,
                                        "addr_ok": addr_ok if addr_ok is not None else [rq[1]]})
             elif st[0] == "set":
                 self.events.append(["S", t, "Assign" if st[1] == "A" else "Update", list(st[2])])
+            elif st[0] == "tagreq":
+                self.req_tags.setdefault(op_index, []).append(st[1])
             elif st[0] == "gate" and stop_at_gate:
                 return i
         return None
@@ -638,6 +648,55 @@ class ServerRun:
         if not wait_for(lambda: busy_count(self.srv) <= before - 1, 3.0):
             self.problems.append("op %d: reset connection %d still accounted for" % (i, b))
 
+    def do_owstore(self, i, op):
+        """a oneway method (own thread) waits at a gate and then stores response annotations while the thread that accepted
+        it is in the middle of serving another request (between that request's begin and its reply)"""
+        from Pyro5 import protocol
+        ow, call = op["oneway"], op["call"]
+        c, d = ow["c"], call["c"]
+        for st in ow["steps"] + call["steps"]:
+            if st[0] == "gate":
+                self.world.gates[st[1]] = threading.Event()
+                self.world.entered[st[1]] = threading.Event()
+        g1 = [st[1] for st in ow["steps"] if st[0] == "gate"][0]
+        g2 = [st[1] for st in call["steps"] if st[0] == "gate"][0]
+        data_o, of = build_invoke(ow, "run", (ow["steps"], False, ow["tok"]), protocol.FLAGS_ONEWAY)
+        self.all_calls.append(ow)
+        rq_o = self.expected_req(c, ow, of)
+        self.clients[c].send(data_o)
+        if not self.world.entered[g1].wait(TMO):
+            self.problems.append("oneway method never reached its gate")
+        t = self.thread_of_request(c)
+        o = self.world.tid(self.world.gate_thread.get(g1) or object())
+        self.events.append(["B", t, rq_o])
+        self.events.append(["W", t, o])
+        k1 = self.user_code(o, ow["steps"], rq_o, i, stop_at_gate=True)
+        self.events.append(["D", t])
+        # the other request: begun, its method waits before the reply is built
+        data_r, rf = build_invoke(call, "run", (call["steps"], bool(call.get("raise")), call["tok"]), 0)
+        self.all_calls.append(call)
+        rq_r = self.expected_req(d, call, rf)
+        self.clients[d].send(data_r)
+        if not self.world.entered[g2].wait(TMO):
+            self.problems.append("method never reached its gate")
+        t2 = self.thread_of_request(d)
+        self.events.append(["B", t2, rq_r])
+        k2 = self.user_code(t2, call["steps"], rq_r, 4000 * (i + 1), stop_at_gate=True)
+        # now the oneway method stores its annotations and finishes
+        self.world.gates[g1].set()
+        if not wait_for(lambda: ow["tok"] in self.world.done):
+            self.problems.append("oneway method %d did not finish" % ow["tok"])
+        self.user_code(o, ow["steps"], rq_o, i, start=k1 + 1)
+        self.world.gates[g2].set()
+        m = self.clients[d].recv_msg()
+        self.user_code(t2, call["steps"], rq_r, 4000 * (i + 1), start=k2 + 1)
+        if call.get("raise"):
+            self.events.append(["X", t2, d])
+            self.add_reply(d, m, i, [])
+        else:
+            self.events.append(["R", t2, d, False])
+            self.add_reply(d, m, i, self.own_ids(call["steps"]))
+
     def do_batch(self, i, op):
         from Pyro5 import protocol
         c = op["c"]
@@ -688,6 +747,9 @@ class ServerRun:
             self.do_batch(i, op)
         elif k == "overlap":
             self.do_call(i, dict(op["call"], op="call"), inner=op["inner"])
+        elif k == "owstore":
+            if op["call"]["c"] in self.open and op["oneway"]["c"] in self.open:
+                self.do_owstore(i, op)
         elif k == "resetq":
             if op["holder"]["c"] in self.open:
                 self.do_resetq(i, op)
@@ -938,6 +1000,8 @@ def gen_steps(rng, tk, force_set=False):
         r = rng.random()
         if r < 0.4:
             steps.append(["snap", tk.tok()])
+        elif r < 0.52:
+            steps.append(["tagreq", tk.ann()])
         else:
             steps.append(["set", rng.choice(["A", "U", "U"]), [tk.ann() for _ in range(rng.choice([1, 1, 2]))]])
     if force_set and not any(s[0] == "set" for s in steps):
@@ -950,7 +1014,7 @@ def gen_steps(rng, tk, force_set=False):
 def gen_callop(rng, tk, c, seqs, kind=None, force_set=False, raise_=None):
     seqs[c] = (seqs.get(c, 0) + rng.choice([1, 1, 1, 7])) & 0xffff
     op = {"op": kind or "call", "c": c, "seq": seqs[c], "tok": tk.tok(), "ser": rng.choice(SERIALIZERS),
-          "corr": rng.random() < 0.5, "qann": rng.random() < 0.85}
+          "corr": rng.random() < 0.5, "qann": rng.random() < 0.7}
     if op["op"] in ("call", "oneway"):
         op["steps"] = gen_steps(rng, tk, force_set)
         op["raise"] = (rng.random() < 0.4) if raise_ is None else raise_
@@ -1041,6 +1105,15 @@ def gen_server_case(rng, size=None):
                     inner.append(gen_callop(rng, tk, o, seqs, kind))
             call["late"] = inner
             ops.append(call)
+        elif r < 0.985 and rng.random() < 0.4:
+            # a still running oneway method stores response annotations while its accepting thread is inside another request
+            ow = gen_callop(rng, tk, c, seqs, "oneway")
+            ow["raise"] = False
+            ow["steps"] = ow["steps"] + [["gate", tk.tok()], ["set", "U", [tk.ann()]]] + ([["snap", tk.tok()]] if rng.random() < 0.5 else [])
+            d = c if (server == "thread" or rng.random() < 0.3) else rng.choice(open_)
+            call = gen_callop(rng, tk, d, seqs, "call")
+            call["steps"].insert(rng.randrange(len(call["steps"]) + 1), ["gate", tk.tok()])
+            ops.append({"op": "owstore", "c": c, "oneway": ow, "call": call})
         elif r < 0.985:
             # a queued oneway request of a client that resets its connection before the (held) thread gets to serve it
             others = [x for x in open_ if x != c]
@@ -1159,6 +1232,21 @@ def targeted():
          "holder": {"op": "batch", "c": 1, "seq": 1, "tok": 3, "ser": "serpent", "corr": False, "oneway": True,
                     "members": [{"steps": [["snap", 4], ["gate", 5]], "raise": False, "tok": 6}]},
          "call": {"op": "oneway", "c": 1, "seq": 2, "tok": 7, "ser": "json", "corr": True, "steps": [["snap", 8]], "raise": False}}]})
+    # in-place stores: into the request annotations (then annotation-free requests of others), and by a running oneway method
+    for server, pool in (("multiplex", 1), ("thread", 1)):
+        out.append({"kind": "server", "server": server, "pool": pool, "dmn": [], "ops": [
+            {"op": "connect", "c": 0, "how": "ok"},
+            {"op": "call", "c": 0, "seq": 1, "tok": 1, "ser": "serpent", "corr": False, "qann": False, "steps": [["snap", 2], ["tagreq", 7], ["snap", 3]], "raise": False},
+            {"op": "call", "c": 0, "seq": 2, "tok": 4, "ser": "json", "corr": True, "qann": False, "steps": [["snap", 5]], "raise": False},
+            {"op": "close", "c": 0}, {"op": "connect", "c": 1, "how": "ok"},
+            {"op": "call", "c": 1, "seq": 1, "tok": 6, "ser": "marshal", "corr": False, "qann": False, "steps": [["snap", 8]], "raise": False},
+            {"op": "call", "c": 1, "seq": 2, "tok": 9, "ser": "serpent", "corr": False, "qann": True, "steps": [["tagreq", 11], ["snap", 10]], "raise": False}]})
+        out.append({"kind": "server", "server": server, "pool": pool, "dmn": [], "ops": [
+            {"op": "connect", "c": 0, "how": "ok"}] + ([{"op": "connect", "c": 1, "how": "ok"}] if server == "multiplex" else []) + [
+            {"op": "owstore", "c": 0,
+             "oneway": {"op": "oneway", "c": 0, "seq": 1, "tok": 1, "ser": "serpent", "corr": True, "steps": [["snap", 2], ["gate", 3], ["set", "U", [7]]], "raise": False},
+             "call": {"op": "call", "c": 1 if server == "multiplex" else 0, "seq": 2, "tok": 4, "ser": "json", "corr": False,
+                      "steps": [["set", "U", [8]], ["gate", 5], ["snap", 6]], "raise": False}}]})
     for server in ("thread", "multiplex"):
         for dmn in ([], [40001]):
             out.append({"kind": "client", "server": server, "dmn": dmn, "ops": [
@@ -1230,7 +1318,9 @@ RULE = ("seeded random histories of 1-4 raw client connections against a real Da
         "undecodable arguments, connection closes followed by new connections on the reused thread, and calls overlapping in time "
         "(a method waits at a gate while other connections are served), oneway calls whose thread is held at the start of run() until the "
         "serving thread has completely served other requests (late scheduling), and oneway requests queued behind a held method by a client "
-        "that then resets its connection (peer address unknown when served); every method records the context it reads and sets fresh annotation "
+        "that then resets its connection (peer address unknown when served), methods that store IN PLACE into the request annotations they "
+        "were handed (followed by annotation-free and annotated requests of other clients), and a still running oneway method that stores "
+        "response annotations in place while its accepting thread is between begin and reply of another request; every method records the context it reads and sets fresh annotation "
         "ids by assignment or item update; three serializers, with and without correlation id / request annotations; daemon annotations "
         "none/one/two.  Client half: real Proxy objects (call, raise, oneway, batch, unknown method, release + reconnect, new proxy).  "
         "non-trivial = at least three replies/snapshots observed; distinct = distinct case hash")
